@@ -44,16 +44,19 @@ package hashgraph
 //@   ensures[def] ret1 == nil && __seqeq(ret0, HBlock(*bb)) && len(ret0) == 32
 
 //@ func (e *Event) Creator() string
+//@   safety on
 //@   requires e != nil
 //@   modifies nothing
 //@   ensures[def] ret0 == CreatorOf(e)
 
 //@ func (e *Event) Hash() ([]byte, error)
+//@   safety on
 //@   requires e != nil
 //@   modifies nothing
 //@   ensures[def] ret1 == nil && __seqeq(ret0, BodyHash(e.Body))
 
 //@ func (e *Event) Hex() string
+//@   safety on
 //@   requires e != nil
 //@   modifies nothing
 //@   ensures[def] ret0 == HexOf(e)
@@ -75,6 +78,7 @@ package hashgraph
 
 // Signing fills in the signature over the hash of the body as it is at the call; the body is not touched.
 //@ func (e *Event) Sign(privKey *ecdsa.PrivateKey) error
+//@   safety on
 //@   requires e != nil
 //@   modifies e.Signature
 //@   ensures[signed] ret0 == nil ==> keys.SignedBy(privKey, BodyHash(e.Body), e.Signature)
@@ -399,6 +403,7 @@ package hashgraph
 //@ ghost func BlockSigOK(b *Block, keyBytes []byte, sig string) bool { return keys.SigValid(keyBytes, HBlock(b.Body), sig) }
 
 //@ func (bs *BlockSignature) ValidatorHex() string
+//@   safety on
 //@   requires bs != nil
 //@   modifies nothing
 //@   ensures[def] ret0 == common.Enc(bs.Validator)
@@ -418,6 +423,7 @@ package hashgraph
 //@   loop 1 invariant[part]  forall j int :: 0 <= j && j < i ==> (exists k string :: __in(k, b.Signatures) && __seqeq(res[j].Validator, common.KeyBytesOf(k)) && res[j].Signature == b.Signatures[k] && res[j].Index == b.Body.Index)
 
 //@ func (h *Hashgraph) CheckBlock(block *Block, peerSet *peers.PeerSet) error
+//@   safety on
 //@   requires h != nil && block != nil && peerSet != nil && peerSet.WF()
 //@   modifies nothing
 //@   ensures[peers-hash]       ret0 == nil ==> __seqeq(peers.PSHashOf(peerSet.Peers), block.Body.PeersHash)
@@ -525,6 +531,7 @@ package hashgraph
 //@ ghost func ValidSigEntry(b *Block, ps *peers.PeerSet, v string) bool { return __in(v, ps.ByPubKey) && v == common.Enc(common.KeyBytesOf(v)) && BlockSigOK(b, common.KeyBytesOf(v), b.Signatures[v]) }
 
 //@ func (b *Block) SetSignature(bs BlockSignature) error
+//@   safety on
 //@   requires b != nil && b.Signatures != nil
 //@   modifies b.Signatures[*]
 //@   ensures[set] ret0 == nil && __in(common.Enc(bs.Validator), b.Signatures) && b.Signatures[common.Enc(bs.Validator)] == bs.Signature
@@ -532,6 +539,7 @@ package hashgraph
 //@   ensures[len] len(b.Signatures) == old(len(b.Signatures)) + __ite(__in(common.Enc(bs.Validator), old(b.Signatures)), 0, 1)
 
 //@ func (h *Hashgraph) SetAnchorBlock(block *Block) error
+//@   safety on
 //@   requires h != nil && block != nil
 //@   modifies h.AnchorBlock, *h.AnchorBlock
 //@   ensures[ok]        (ret0 == nil) == G_psetOK(h.Store)
@@ -544,6 +552,7 @@ package hashgraph
 //@ ghost func StoredBlocksSeparate(s Store) bool { return forall i int, j int :: __in(i, G_blocks(s)) && __in(j, G_blocks(s)) && i != j && G_blocks(s)[i] != nil && G_blocks(s)[j] != nil ==> G_blocks(s)[i] != G_blocks(s)[j] && G_blocks(s)[i].Signatures != nil && !__eq(G_blocks(s)[i].Signatures, G_blocks(s)[j].Signatures) }
 
 //@ func (h *Hashgraph) ProcessSigPool() error
+//@   safety on
 //@   requires h != nil && h.PendingSignatures != nil && h.PendingSignatures.items != nil && StoredBlocksSeparate(h.Store)
 //@   modifies h.AnchorBlock, anyptr int, anymap map[string]string, h.PendingSignatures.items[*], G_blocks(h.Store), G_bodies(h.Store), G_fault(h.Store), G_lastBlock(h.Store)
 //@   ensures[recorded-only-if-valid] forall i int, v string :: __in(i, G_blocks(h.Store)) && G_blocks(h.Store)[i] != nil && __in(v, G_blocks(h.Store)[i].Signatures) && (!old(__in(v, G_blocks(h.Store)[i].Signatures)) || G_blocks(h.Store)[i].Signatures[v] != old(G_blocks(h.Store)[i].Signatures[v])) ==> ValidSigEntry(G_blocks(h.Store)[i], G_pset(h.Store)[G_blocks(h.Store)[i].Body.RoundReceived], v)
@@ -584,6 +593,7 @@ package hashgraph
 //@ ghost func BlockSignedBy(priv *ecdsa.PrivateKey, b *Block, sig string) bool { return keys.SignedBy(priv, HBlock(b.Body), sig) }
 
 //@ func (b *Block) Sign(privKey *ecdsa.PrivateKey) (bs BlockSignature, err error)
+//@   safety on
 //@   requires b != nil && privKey != nil
 //@   modifies nothing
 //@   ensures[signed] err == nil ==> bs.Index == b.Body.Index && keys.SignedBy(privKey, HBlock(b.Body), bs.Signature)
@@ -769,6 +779,7 @@ package hashgraph
 // Blocks from frames (C04, C05, C18)
 
 //@ func NewBlockFromFrame(blockIndex int, frame *Frame) (*Block, error)
+//@   safety on
 //@   requires frame != nil && len(frame.Peers) < 2147483648 && (forall i int :: 0 <= i && i < len(frame.Peers) ==> frame.Peers[i] != nil && __allocated(frame.Peers[i]))
 //@   requires forall k int :: 0 <= k && k < len(frame.Events) ==> frame.Events[k] != nil && frame.Events[k].Core != nil
 //@   modifies nothing
@@ -815,11 +826,13 @@ package hashgraph
 //@ ghost func DBWrapperOf(e *Event) eventWrapper { return eventWrapper{Body: e.Body, Signature: e.Signature, CreatorID: e.Body.creatorID, OtherParentCreatorID: e.Body.otherParentCreatorID, SelfParentIndex: e.Body.selfParentIndex, OtherParentIndex: e.Body.otherParentIndex, TopologicalIndex: e.topologicalIndex, LastAncestors: e.lastAncestors, FirstDescendants: e.firstDescendants} }
 
 //@ func (e *Event) MarshalDB() ([]byte, error)
+//@   safety on
 //@   requires e != nil
 //@   modifies nothing
 //@   ensures[form] ret1 == nil ==> __seqeq(ret0, __json(DBWrapperOf(e)))
 
 //@ func (e *Event) UnmarshalDB(data []byte) error
+//@   safety on
 //@   requires e != nil
 //@   modifies e.Body, e.Signature, e.topologicalIndex, e.lastAncestors, e.firstDescendants
 //@   ensures[restore] ret0 == nil ==> (forall w eventWrapper :: __seqeq(data, __json(w)) ==> __eq(e.Body.Transactions, w.Body.Transactions) && __eq(e.Body.InternalTransactions, w.Body.InternalTransactions) && __eq(e.Body.Parents, w.Body.Parents) && __eq(e.Body.Creator, w.Body.Creator) && e.Body.Index == w.Body.Index && __eq(e.Body.BlockSignatures, w.Body.BlockSignatures) && e.Body.Timestamp == w.Body.Timestamp && e.Signature == w.Signature && e.Body.creatorID == w.CreatorID && e.Body.otherParentCreatorID == w.OtherParentCreatorID && e.Body.selfParentIndex == w.SelfParentIndex && e.Body.otherParentIndex == w.OtherParentIndex && e.topologicalIndex == w.TopologicalIndex && __eq(e.lastAncestors, w.LastAncestors) && __eq(e.firstDescendants, w.FirstDescendants))
@@ -841,6 +854,7 @@ package hashgraph
 //@   loop 1 invariant[ge] 0 <= i && i <= len(c.rounds)-1 && round >= c.rounds[i] && !__in(round, c.peerSets)
 
 //@ func (c *PeerSetCache) Set(round int, peerSet *peers.PeerSet) error
+//@   safety on
 //@   requires c != nil && c.wf() && peerSet != nil && c.repertoireByPubKey != nil && c.repertoireByID != nil && c.firstRounds != nil
 //@   requires forall i int :: 0 <= i && i < len(peerSet.Peers) ==> peerSet.Peers[i] != nil
 //@   modifies c.rounds, c.peerSets[*], c.repertoireByPubKey[*], c.repertoireByID[*], c.firstRounds[*]
@@ -991,6 +1005,7 @@ package hashgraph
 //@   ensures[ready] ret0.ConsensusReady()
 
 //@ func (h *Hashgraph) Init(peerSet *peers.PeerSet) error
+//@   safety on
 //@   requires h != nil && peerSet != nil
 //@   modifies G_pset(h.Store), G_psetOK(h.Store), G_psetFloor(h.Store), G_rep(h.Store), G_fault(h.Store)
 
@@ -1061,12 +1076,14 @@ package hashgraph
 // Signature pool (C05, C09)
 
 //@ func (sp *SigPool) Slice() []BlockSignature
+//@   safety on
 //@   requires sp != nil
 //@   modifies nothing
 //@   ensures[len] len(ret0) == len(sp.items) && !(ret0 == nil)
 //@   loop 1 invariant[len] !(res == nil) && len(res) == __iter()
 
 //@ func (sp *SigPool) RemoveSlice(sigs []BlockSignature)
+//@   safety on
 //@   requires sp != nil
 //@   modifies sp.items[*]
 //@   ensures[subset] forall k string :: __in(k, sp.items) ==> old(__in(k, sp.items)) && __eq(sp.items[k], old(sp.items[k]))
@@ -1244,6 +1261,7 @@ package hashgraph
 //@   modifies nothing
 
 //@ func (s *InmemStore) addParticipant(p *peers.Peer) error
+//@   safety on
 //@   requires s != nil && s.participantEventsCache != nil && s.participantEventsCache.wf() && peers.PeerOK(p) && s.roots != nil && len(s.participantEventsCache.participants.Peers) < 2147483647
 //@   modifies s.participantEventsCache.participants, any common.RollingIndexMap.keys, anymap map[uint32]*common.RollingIndex, s.roots[*]
 //@   ensures[wf] s.participantEventsCache.wf() && len(s.participantEventsCache.participants.Peers) <= old(len(s.participantEventsCache.participants.Peers)) + 1
@@ -1280,6 +1298,7 @@ package hashgraph
 //@   ensures[def] ret0 == IsDbNF(err) && (ret0 ==> err != nil)
 
 //@ func mapError(err error, name, key string) error
+//@   safety on
 //@   modifies nothing
 //@   ensures[nil]   err == nil ==> ret0 == nil
 //@   ensures[nf]    err != nil && IsDbNF(err) ==> common.IsStore(ret0, common.KeyNotFound)
@@ -1326,6 +1345,7 @@ package hashgraph
 //@   modifies nothing
 
 //@ func (s *BadgerStore) dbSetEvents(events []*Event) error
+//@   safety on
 //@   requires s != nil && s.db != nil && (forall k int :: 0 <= k && k < len(events) ==> events[k] != nil)
 //@   modifies G_raw(s.db), anyghost hashgraph.pend
 //@   call Set#2 assume[key-spaces] len(events) == 1 ==> string(__argT[[]byte](0)) != HexOf(events[0])
@@ -1336,6 +1356,7 @@ package hashgraph
 //@   loop 1 invariant[pending] len(events) == 1 && __idx() == 1 ==> __in(HexOf(events[0]), G_pend(tx)) && __seqeq(G_pend(tx)[HexOf(events[0])], __json(DBWrapperOf(events[0])))
 
 //@ func (s *BadgerStore) GetEvent(key string) (*Event, error)
+//@   safety on
 //@   requires s != nil && s.ok()
 //@   modifies nothing
 //@   ensures[cache-first] __in(interface{}(key), common.G_m(s.inmemStore.eventCache)) ==> ret1 == nil && ret0 == G_events(s.inmemStore)[key]
@@ -1344,6 +1365,7 @@ package hashgraph
 //@   ensures[err]         ret1 != nil ==> ret0 == nil
 
 //@ func (s *BadgerStore) SetEvent(event *Event) error
+//@   safety on
 //@   ints checked
 //@   requires s != nil && s.ok() && event != nil && event.Body.Index >= 0 && event.Body.Index < 4611686018427387904
 //@   modifies common.G_m(s.inmemStore.eventCache), any common.RollingIndex.items, any common.RollingIndex.lastIndex, G_events(s.inmemStore), G_raw(s.db), anyghost hashgraph.pend
@@ -1407,6 +1429,7 @@ package hashgraph
 // exactly the bytes that Marshal of THAT object returned in this call, every other record is untouched, and a failure
 // leaves the database as it was. (What Marshal produces is the codec's business.)
 //@ func (s *BadgerStore) dbSetBlock(block *Block) error
+//@   safety on
 //@   requires s != nil && s.db != nil && block != nil
 //@   modifies G_raw(s.db), anyghost hashgraph.pend
 //@   call Marshal assert[of-block] __recv() == block
@@ -1416,6 +1439,7 @@ package hashgraph
 //@   ensures[fail]    ret0 != nil ==> __eq(G_raw(s.db), old(G_raw(s.db)))
 
 //@ func (s *BadgerStore) GetBlock(rr int) (*Block, error)
+//@   safety on
 //@   requires s != nil && s.ok()
 //@   modifies nothing
 //@   ensures[cache-first] __in(interface{}(rr), common.G_m(s.inmemStore.blockCache)) ==> ret1 == nil && ret0 == G_blocks(s.inmemStore)[rr]
@@ -1424,6 +1448,7 @@ package hashgraph
 //@   ensures[err]         ret1 != nil ==> ret0 == nil
 
 //@ func (s *BadgerStore) SetBlock(block *Block) error
+//@   safety on
 //@   requires s != nil && s.ok() && block != nil && block.Signatures != nil
 //@   modifies common.G_m(s.inmemStore.blockCache), s.inmemStore.lastBlock, G_blocks(s.inmemStore), G_bodies(s.inmemStore), G_lastBlock(s.inmemStore), G_fault(s.inmemStore), G_raw(s.db), anyghost hashgraph.pend
 //@   ensures[write-through] ret0 == nil && !s.maintenanceMode ==> __in(string(blockKey(block.Body.Index)), G_raw(s.db))
@@ -1442,6 +1467,7 @@ package hashgraph
 //@   ensures[raw]  (ret1 == nil ==> __in(string(participantRootKey(participant)), G_raw(s.db))) && (ret1 != nil && !DbReadFault(ret1) ==> !__in(string(participantRootKey(participant)), G_raw(s.db)))
 
 //@ func (s *BadgerStore) GetRoot(participant string) (*Root, error)
+//@   safety on
 //@   requires s != nil && s.inmemStore != nil
 //@   modifies nothing
 //@   ensures[cache-first] __in(participant, s.inmemStore.roots) ==> ret1 == nil && ret0 == s.inmemStore.roots[participant]
@@ -1449,6 +1475,7 @@ package hashgraph
 //@   ensures[notfound]    common.IsStore(ret1, common.KeyNotFound) ==> !__in(participant, s.inmemStore.roots) && !__in(participant, G_dbRoots(s))
 
 //@ func (s *BadgerStore) dbSetRound(index int, round *RoundInfo) error
+//@   safety on
 //@   requires s != nil && s.db != nil && round != nil
 //@   modifies G_raw(s.db), anyghost hashgraph.pend
 //@   call Marshal assert[of-round] __recv() == round
@@ -1458,6 +1485,7 @@ package hashgraph
 //@   ensures[fail]    ret0 != nil ==> __eq(G_raw(s.db), old(G_raw(s.db)))
 
 //@ func (s *BadgerStore) SetRound(r int, round *RoundInfo) error
+//@   safety on
 //@   requires s != nil && s.ok() && round != nil && round.CreatedEvents != nil
 //@   modifies common.G_m(s.inmemStore.roundCache), s.inmemStore.lastRound, G_rounds(s.inmemStore), G_fault(s.inmemStore), G_raw(s.db), anyghost hashgraph.pend
 //@   ensures[write-through] ret0 == nil && !s.maintenanceMode ==> __in(string(roundKey(r)), G_raw(s.db))
@@ -1467,6 +1495,7 @@ package hashgraph
 //@   ensures[ok]            s.ok()
 
 //@ func (s *BadgerStore) dbSetFrame(frame *Frame) error
+//@   safety on
 //@   requires s != nil && s.db != nil && frame != nil
 //@   modifies G_raw(s.db), anyghost hashgraph.pend
 //@   call Marshal assert[of-frame] __recv() == frame
@@ -1476,6 +1505,7 @@ package hashgraph
 //@   ensures[fail]    ret0 != nil ==> __eq(G_raw(s.db), old(G_raw(s.db)))
 
 //@ func (s *BadgerStore) SetFrame(frame *Frame) error
+//@   safety on
 //@   requires s != nil && s.ok() && frame != nil && FrameWF(frame)
 //@   modifies common.G_m(s.inmemStore.frameCache), G_frames(s.inmemStore), G_fault(s.inmemStore), G_raw(s.db), anyghost hashgraph.pend
 //@   ensures[write-through] ret0 == nil && !s.maintenanceMode ==> __in(string(frameKey(frame.Round)), G_raw(s.db))
@@ -1500,6 +1530,7 @@ package hashgraph
 //@   ensures[def] ret0 == DbPEItem(G_dbPE(s), participant, index) && ret1 == DbPEItemErr(G_dbPE(s), participant, index)
 
 //@ func (s *BadgerStore) ParticipantEvents(participant string, skip int) ([]string, error)
+//@   safety on
 //@   ints checked
 //@   requires s != nil && s.inmemStore != nil && s.inmemStore.participantEventsCache != nil && s.inmemStore.participantEventsCache.wf()
 //@   modifies nothing
@@ -1508,6 +1539,7 @@ package hashgraph
 //@   ensures[unknown]     !s.inmemStore.participantEventsCache.known(participant) ==> __seqeq(ret0, DbPEList(G_dbPE(s), participant, skip)) && ret1 == DbPEListErr(G_dbPE(s), participant, skip)
 
 //@ func (s *BadgerStore) ParticipantEvent(participant string, index int) (string, error)
+//@   safety on
 //@   ints checked
 //@   requires s != nil && s.inmemStore != nil && s.inmemStore.participantEventsCache != nil && s.inmemStore.participantEventsCache.wf()
 //@   modifies nothing
@@ -1518,15 +1550,18 @@ package hashgraph
 // Constructors: a new store satisfies the coupling invariant (empty caches, empty view, counters at -1), so that
 // coupled() - the precondition of every store method above - is established, not only preserved.
 //@ func NewPeerSetCache() *PeerSetCache
+//@   safety on
 //@   modifies nothing
 //@   ensures[fresh] ret0 != nil && __fresh(ret0) && ret0.wf() && len(ret0.rounds) == 0 && ret0.repertoireByPubKey != nil && ret0.repertoireByID != nil && ret0.firstRounds != nil && (forall k uint32 :: !__in(k, ret0.repertoireByID))
 
 //@ func NewParticipantEventsCache(size int) *ParticipantEventsCache
+//@   safety on
 //@   requires size >= 2 && size < 4611686018427387904
 //@   modifies nothing
 //@   ensures[fresh] ret0 != nil && __fresh(ret0) && ret0.wf() && len(ret0.participants.Peers) == 0
 
 //@ func NewInmemStore(cacheSize int) *InmemStore
+//@   safety on
 //@   requires cacheSize >= 2 && cacheSize < 4611686018427387904
 //@   modifies nothing
 //@   ghostset G_lastBlock(ret0) := -1
@@ -1594,6 +1629,7 @@ package hashgraph
 // block after the anchor, so the reset store must not remember an older last block). That the peer-set loop
 // re-establishes the coupling invariant is assumed (InmemStore.SetPeerSet is not verified).
 //@ func (s *InmemStore) Reset(frame *Frame) error
+//@   safety on
 //@   implements Store.Reset
 //@   reveal PeerSliceOK
 //@   requires s != nil && s.coupled()
@@ -1607,6 +1643,7 @@ package hashgraph
 //@   modifies nothing
 
 //@ func (s *BadgerStore) dbSetRoot(participant string, root *Root) error
+//@   safety on
 //@   requires s != nil && s.db != nil && root != nil
 //@   modifies G_raw(s.db), anyghost hashgraph.pend
 //@   call Marshal assert[of-root] __recv() == root
@@ -1616,6 +1653,7 @@ package hashgraph
 //@   ensures[fail]    ret0 != nil ==> __eq(G_raw(s.db), old(G_raw(s.db)))
 
 //@ func (s *BadgerStore) dbSetPeerSet(round int, peerSet *peers.PeerSet) error
+//@   safety on
 //@   requires s != nil && s.db != nil && peerSet != nil
 //@   modifies G_raw(s.db), anyghost hashgraph.pend
 //@   call Marshal assert[of-set] __recv() == peerSet
@@ -1625,6 +1663,7 @@ package hashgraph
 //@   ensures[fail]    ret0 != nil ==> __eq(G_raw(s.db), old(G_raw(s.db)))
 
 //@ func (s *BadgerStore) dbSetRepertoire(peer *peers.Peer) error
+//@   safety on
 //@   requires s != nil && s.db != nil && peer != nil
 //@   modifies G_raw(s.db), anyghost hashgraph.pend
 //@   call Marshal assert[of-peer] __recv() == peer
@@ -1639,6 +1678,7 @@ package hashgraph
 // Extending the repertoire (every SetPeerSet, also after a fast-sync reset wrote the frame's roots): a root record
 // that is already in the database is never replaced - a base root is written only when the read found none.
 //@ func (s *BadgerStore) addParticipant(p *peers.Peer) error
+//@   safety on
 //@   requires s != nil && s.db != nil && p != nil
 //@   modifies G_raw(s.db), anyghost hashgraph.pend
 //@   call dbSetRepertoire assume[key-spaces] string(participantRootKey(p.PubKeyString())) != string(repertoireKey(p.PubKeyString()))
